@@ -150,6 +150,34 @@ def run(r: core.Run):
         if mism:
             tie = core.TieBroken(f"values/uuid correspondence: {len(mism)} model pre-images do not hash to the implementation's UUID",
                                  "\n".join(mism[:5]))
+            # search for a concrete failing pair: a value whose UUID is not the hash of its pre-image but is the UUID of
+            # another, different value of the run (for every value that corresponds, UUID = hash of its pre-image, so
+            # the model says the two differ)
+            by_uuid = {}
+            for i, o in enumerate(ops):
+                f = o.split()
+                if f and f[0] == "V" and i < len(impl) and impl[i].startswith("uuid "):
+                    by_uuid.setdefault(impl[i].split()[1], []).append((i, f[2], " ".join(f[3:])))
+            for tier_kinds in (("node", "pred", "lit", "obj"), ("triple",)):
+                for l in mism:
+                    try:
+                        idx = int(l.split()[0]) - 1
+                        f = ops[idx].split()
+                        u = impl[idx].split()[1]
+                    except (ValueError, IndexError):
+                        continue
+                    if len(f) < 4 or f[0] != "V" or f[2] not in tier_kinds:
+                        continue
+                    va = " ".join(f[3:])
+                    for j, k2, vb in by_uuid.get(u, []):
+                        if j != idx and k2 == f[2] and not explained(k2, va, vb, wit):
+                            bad.append({"what": "UUIDs are equal but the values are different (found through a value whose UUID is "
+                                                "not the hash of its model pre-image)", "kind": k2, "pair": [va, vb]})
+                            break
+                    if len(bad) >= 3:
+                        break
+                if bad:
+                    break
     except core.TieBroken as e:
         tie = e
     for f in finds:
